@@ -381,7 +381,11 @@ func (p *deepProfile) genMsg(r *lib.Rng, path string) *Msg {
 
 func genDeepMap(r *lib.Rng, p *deepProfile, path string, depth int) DMap {
 	m := DMap{}
-	for j, nk := 0, r.Intn(4); j < nk; j++ {
+	nk := r.Range(1, 3)
+	if r.Chance(1, 10) {
+		nk = 0
+	}
+	for j := 0; j < nk; j++ {
 		k := r.Pick(keyPool[:4])
 		full := path + "/" + k
 		kind, seen := p.kinds[full]
